@@ -459,4 +459,140 @@ theorem clockStep_queue (s : State) (j0 : Nat) :
       · rfl
       · next hf => exact (fwdTo_sameQ hf).queueOf j0
 
+/-! ### pending lists -/
+
+/-- socket actions never touch the clock thread's control state or the pending lists -/
+theorem sock_keeps_pending (j0 pos : Nat) (s : State) (op : Op) (sg : SGhost) (a : Act) (ha : a.op? = some op) :
+    (act s a).pc = s.pc ∧ (sgStep j0 pos s a sg).pendE = sg.pendE ∧ (sgStep j0 pos s a sg).pendD = sg.pendD ∧
+    (sgStep j0 pos s a sg).snap = sg.snap ∧ (sgStep j0 pos s a sg).tickLog = sg.tickLog := by
+  simp only [act, sgStep, ha, sockStep, and_self]
+
+/-- the pending lists are filled only by the locked section of `clck_tick(j0)`, from the queue as it
+is at that moment -/
+theorem pending_only_from_lock {j0 pos : Nat} {s : State} {a : Act} {sg : SGhost} {p : Nat × Trxd.TxMsg}
+    (h : p ∈ (sgStep j0 pos s a sg).pendE ++ (sgStep j0 pos s a sg).pendD) :
+    p ∈ sg.pendE ++ sg.pendD ∨
+    (a.op? = none ∧ ∃ fn js, s.pc = .lock fn j0 js ∧ p ∈ sg.g.ids.zip (queueOf s.w j0)) := by
+  cases hop : a.op? with
+  | some op =>
+    obtain ⟨-, h1, h2, -⟩ := sock_keeps_pending j0 pos s op sg a hop
+    rw [h1, h2] at h; exact .inl h
+  | none =>
+    have ha : a = Act.clk := by cases a <;> simp [Act.op?] at hop; rfl
+    subst ha
+    rw [sgStep_clk] at h
+    split at h
+    · next fn j js hpc =>
+      split at h
+      · next e =>
+        subst e
+        right
+        refine ⟨rfl, fn, js, hpc, ?_⟩
+        simp only [List.mem_append, List.mem_filter] at h
+        rcases h with h | h <;> exact h.1
+      · exact .inl h
+    · split at h
+      · split at h
+        · next p' rest hp =>
+          left
+          rw [hp]
+          simp only [List.mem_append, List.mem_cons] at h ⊢
+          rcases h with h | h
+          · exact .inl (.inr h)
+          · exact .inr h
+        · exact .inl h
+      · exact .inl h
+    · split at h
+      · split at h
+        · next p' rest hp =>
+          left
+          rw [hp]
+          simp only [List.mem_append, List.mem_cons] at h ⊢
+          rcases h with h | h
+          · exact .inl h
+          · exact .inr (.inr h)
+        · exact .inl h
+      · exact .inl h
+    · exact .inl h
+
+/-- a tick outcome (`emitted` / `stale`) is only ever given to a pending message, by the clock thread -/
+theorem tick_outcome_needs_pending {j0 pos : Nat} {s : State} {a : Act} {sg : SGhost} {e : Ev}
+    (h : e ∈ (sgStep j0 pos s a sg).g.log) (hn : e ∉ sg.g.log) (id fn : Nat)
+    (he : e = Event.emitted id fn ∨ e = Event.stale id fn) :
+    a.op? = none ∧ ∃ p ∈ sg.pendE ++ sg.pendD, p.1 = id := by
+  cases hop : a.op? with
+  | some op =>
+    exfalso
+    simp only [sgStep, hop] at h
+    rcases ghostStep_mem h with h | ⟨d, m, -, -, hh⟩ | ⟨fn', p, hop', -⟩ | ⟨i, sp, d, id', -, -, hh, -⟩
+    · exact hn h
+    · rcases he with he | he <;> rw [he] at hh <;> cases hh
+    · cases a <;> simp [Act.op?] at hop <;> subst hop <;> cases hop'
+    · rcases he with he | he <;> rw [he] at hh <;> cases hh
+  | none =>
+    refine ⟨rfl, ?_⟩
+    have ha : a = Act.clk := by cases a <;> simp [Act.op?] at hop; rfl
+    subst ha
+    rw [sgStep_clk] at h
+    split at h
+    · split at h
+      · exact absurd h hn
+      · exact absurd h hn
+    · split at h
+      · split at h
+        · next p' rest hp =>
+          simp only [List.mem_append, List.mem_singleton] at h
+          rcases h with h | h
+          · exact absurd h hn
+          · refine ⟨p', by rw [hp]; simp, ?_⟩
+            rcases he with he | he <;> rw [he] at h <;> cases h
+            rfl
+        · exact absurd h hn
+      · exact absurd h hn
+    · split at h
+      · split at h
+        · next p' rest hp =>
+          simp only [List.mem_append, List.mem_singleton] at h
+          rcases h with h | h
+          · exact absurd h hn
+          · refine ⟨p', by rw [hp]; simp, ?_⟩
+            rcases he with he | he <;> rw [he] at h <;> cases h
+            rfl
+        · exact absurd h hn
+      · exact absurd h hn
+    · exact absurd h hn
+
+/-- a message in the clock thread's local `emit` list is handed to `forward_msg` by the next action
+of the clock thread, whatever has happened to the transceiver in between -/
+theorem pending_emit_is_emitted {j0 pos : Nat} {s : State} {sg : SGhost} (h : SInv j0 pos s sg)
+    {fn : Nat} {m : Trxd.TxMsg} {emit drop : List Trxd.TxMsg} {js : List Nat}
+    (hpc : s.pc = .loop fn j0 (m :: emit) drop js) :
+    ∃ p rest, sg.pendE = p :: rest ∧ p.2 = m ∧
+      Event.emitted p.1 fn ∈ (sgStep j0 pos s Act.clk sg).g.log ∧ p.2.fn = some (fn : Int) := by
+  have hp := h.pcOk
+  rw [hpc] at hp
+  simp only [PcOk, if_true] at hp
+  obtain ⟨p, rest, hpe, hpm, -⟩ := map_snd_eq_cons hp.lockE
+  refine ⟨p, rest, hpe, hpm, ?_, classify_emit (hp.clsE p (by rw [hpe]; simp))⟩
+  rw [sgStep_clk, hpc]
+  simp only [if_true, hpe]
+  simp
+
+/-- the locked section records the tagged queue as it is at that moment -/
+theorem snap_at_lock {j0 pos : Nat} {s : State} {sg : SGhost} {fn : Nat} {js : List Nat}
+    (hpc : s.pc = .lock fn j0 js) :
+    (sgStep j0 pos s Act.clk sg).snap = sg.g.ids.zip (queueOf s.w j0) ∧
+    (sgStep j0 pos s Act.clk sg).tickLog = [] := by
+  rw [sgStep_clk, hpc]
+  simp only [if_true, and_self]
+
+/-! ### concrete schedules for the non-vacuity examples of Props/C03 -/
+
+/-- the demo world with the clock thread between two ticks -/
+def demoState (c : Nat) : State := { w := demoWorld c }
+/-- the three demo bursts (due / passed / ahead) arriving at transceiver 0 -/
+def demoArrivalActs : List Act := [.data 0 (demoBurst 100), .data 0 (demoBurst 90), .data 0 (demoBurst 110)]
+/-- `n` consecutive actions of the clock thread -/
+def clks (n : Nat) : List Act := List.replicate n Act.clk
+
 end OsmoVerif.World.Sched
